@@ -19,7 +19,14 @@ package server
 //   - no data loss: the data directory (a marker file planted in it at restart) of every stream that
 //     exists at the end of the log is still there after the replay;
 //   - no resurrection: a stream that does not exist at the end of the log is neither in the metadata
-//     nor on disk after finishedRecovery.
+//     nor on disk after finishedRecovery;
+//   - stand-by members (cx.standby): groups with more subscribers than partitions at the moment of
+//     the snapshot; after restore + replay the group's members, subscriptions, load counters and
+//     epochs equal the live server's, also after the active member has left on both (the stand-by
+//     takes the partition over), and each server's assignments satisfy C12's statement-level
+//     oracles. The dumps read the subscriptions from the members themselves, NOT through GetMembers
+//     (the function Snapshot() uses), so a subscription lost by the snapshot shows
+//     (tag snapshot-loses-group-subscription).
 //
 // Line protocol (one op per line; lists are dot-separated, `-` is the empty list):
 //
@@ -29,6 +36,10 @@ package server
 //	c06 snapshot                            Snapshot() + Persist() into a buffer
 //	c06 snaptake / c06 snappersist          the two halves apart, applies in between (real server only:
 //	                                        Snapshot() hands out the live partition protobufs)
+//	c06 snapshot asc|desc                   real server only: the persisted snapshot lists every group's members in
+//	                                        ascending / descending id order (Snapshot() uses Go map order)
+//	c06 gstate                              real server only: the consumer groups with subscriptions, assignments,
+//	                                        load counters and heaps (stand-by scenarios, see cx.standby)
 //	c06 restart                             crash: fresh server on a data dir with the same stream
 //	                                        directories, Restore(buffer) when a snapshot was taken
 //	c06 finish <index>                      finishedRecovery(index)
@@ -409,7 +420,19 @@ func (v *c06Impl) dump(obs bool) string {
 	var gs []string
 	for _, g := range groups {
 		co, ep := g.GetCoordinator()
-		mem := g.GetMembers()
+		// the members and their subscriptions as the group KEEPS them (consumer.streams, read under
+		// the group mutex), not as GetMembers reports them: GetMembers is what Snapshot() writes
+		// into a snapshot, so a live/restored comparison through it would not see what it loses
+		mem := map[string][]string{}
+		g.mu.RLock()
+		for id, c := range g.members {
+			l := make([]string, 0, len(c.streams))
+			for st := range c.streams {
+				l = append(l, st)
+			}
+			mem[id] = l
+		}
+		g.mu.RUnlock()
 		ids := make([]string, 0, len(mem))
 		for id := range mem {
 			ids = append(ids, id)
@@ -457,6 +480,74 @@ func c06Uniq(l []string) []string {
 		}
 	}
 	return out
+}
+
+// c06OrderMembers rewrites a persisted snapshot so that the members of every consumer group are
+// listed in ascending / descending id order. Server.Snapshot lists them in the iteration order of
+// the map GetMembers returns, i.e. in ANY order: every order is a snapshot the server can produce,
+// and Restore re-adds the members one by one in the listed order. Choosing the order makes the
+// scenarios that look at the restored ASSIGNMENTS deterministic.
+func c06OrderMembers(b []byte, desc bool) ([]byte, error) {
+	if len(b) < 4 {
+		return nil, fmt.Errorf("short snapshot")
+	}
+	snap := &proto.MetadataSnapshot{}
+	if err := snap.Unmarshal(b[4:]); err != nil {
+		return nil, err
+	}
+	for _, g := range snap.Groups {
+		sort.SliceStable(g.Members, func(i, j int) bool {
+			if desc {
+				return g.Members[i].Id > g.Members[j].Id
+			}
+			return g.Members[i].Id < g.Members[j].Id
+		})
+	}
+	body, err := snap.Marshal()
+	if err != nil {
+		return nil, err
+	}
+	out := make([]byte, 4, 4+len(body))
+	out[0], out[1], out[2], out[3] = byte(len(body)>>24), byte(len(body)>>16), byte(len(body)>>8), byte(len(body))
+	return append(out, body...), nil
+}
+
+// c06G: one consumer group as the server keeps it (read in-package under the group mutex; the
+// canonical form and the statement-level oracles are those of the C12 harness).
+type c06G struct {
+	id, co string
+	st     c12State
+}
+
+func (v *c06Impl) groups() []c06G {
+	gs := v.s.metadata.GetConsumerGroups()
+	sort.Slice(gs, func(i, j int) bool { return gs[i].GetID() < gs[j].GetID() })
+	out := make([]c06G, 0, len(gs))
+	for _, g := range gs {
+		co, _ := g.GetCoordinator()
+		out = append(out, c06G{id: g.GetID(), co: co, st: c12Snapshot(g)})
+	}
+	return out
+}
+
+// partsNow: stream -> number of partitions, as the groups' getStreamPartitions sees it.
+func (v *c06Impl) partsNow() map[string]int32 {
+	out := map[string]int32{}
+	for _, st := range v.s.metadata.GetStreams() {
+		out[st.GetName()] = v.s.metadata.countStreamPartitions(st.GetName())
+	}
+	return out
+}
+
+func (v *c06Impl) gstate() string {
+	var l []string
+	for _, g := range v.groups() {
+		l = append(l, fmt.Sprintf("%s(%s) %s", g.id, g.co, g.st.String()))
+	}
+	if len(l) == 0 {
+		return "-"
+	}
+	return strings.Join(l, " ; ")
 }
 
 // pre evaluates the propose-time checks of the metadata leader on the real server: the
@@ -596,8 +687,19 @@ func (v *c06Impl) exec(line string) (out string) {
 		if err := fs.Persist(sink); err != nil {
 			return "err persist"
 		}
-		v.snap, v.hasSnap = append([]byte(nil), sink.Bytes()...), true
+		b := append([]byte(nil), sink.Bytes()...)
+		if len(t) == 3 { // implementation only: `c06 snapshot asc|desc`, see c06OrderMembers
+			if t[2] != "asc" && t[2] != "desc" {
+				return "bad-op"
+			}
+			if b, err = c06OrderMembers(b, t[2] == "desc"); err != nil {
+				return "err reorder"
+			}
+		}
+		v.snap, v.hasSnap = b, true
 		return "ok"
+	case "gstate": // implementation only: the consumer groups with assignments and load counters
+		return "ok " + v.gstate()
 	case "snaptake": // implementation only: Snapshot() now, Persist() later while applies continue
 		fs, err := v.s.Snapshot()
 		if err != nil {
@@ -924,6 +1026,7 @@ var c06Alphabet = []string{
 	"leader a 0 c",
 	"group g x 0 m1=a",
 	"join g m2 a.s",
+	"join g m3 a", // a has one partition: m3 (or m1) is a stand-by, subscribed but holding nothing
 	"leave g m1",
 	"leave g m2",
 	"coord g y",
@@ -1140,10 +1243,62 @@ func c06Classify(live, replayed string) string {
 	if c06Field(live, "S") == c06Field(replayed, "S") && strip(lg, ",e=") == strip(rg, ",e=") {
 		return "group-epoch-differs-after-replay"
 	}
+	if c06Field(live, "S") == c06Field(replayed, "S") && c06SubsLost(strip(lg, ",e="), strip(rg, ",e=")) {
+		return "snapshot-loses-group-subscription"
+	}
 	if strip(strip(live, ",pa=", ",ppa=", ",ro=", ",pro="), ",e=") == strip(strip(replayed, ",pa=", ",ppa=", ",ro=", ",pro="), ",e=") {
 		return "replay-flags-and-group-epoch"
 	}
 	return "replay-state-differs"
+}
+
+// c06SubsLost: the two G fields (epochs stripped) have the same groups, coordinators and members,
+// and differ only in that some members are subscribed to FEWER streams on the restarted server.
+func c06SubsLost(live, replayed string) bool {
+	parse := func(g string) (hdr []string, mem map[string]map[string]bool) {
+		mem = map[string]map[string]bool{}
+		for _, one := range strings.Split(g, ";") {
+			i, j := strings.Index(one, "){"), strings.LastIndex(one, "}")
+			if i < 0 || j < i {
+				return nil, nil
+			}
+			h := one[:i+1]
+			hdr = append(hdr, h)
+			if body := one[i+2 : j]; body != "-" {
+				for _, kv := range strings.Split(body, ",") {
+					p := strings.SplitN(kv, "=", 2)
+					if len(p) != 2 {
+						return nil, nil
+					}
+					set := map[string]bool{}
+					for _, st := range c06List(p[1]) {
+						set[st] = true
+					}
+					mem[h+p[0]] = set
+				}
+			}
+		}
+		return
+	}
+	lh, lm := parse(live)
+	rh, rm := parse(replayed)
+	if lh == nil || rh == nil || strings.Join(lh, ";") != strings.Join(rh, ";") || len(lm) != len(rm) {
+		return false
+	}
+	lost := false
+	for k, ls := range lm {
+		rs, ok := rm[k]
+		if !ok {
+			return false
+		}
+		for st := range rs {
+			if !ls[st] {
+				return false
+			}
+		}
+		lost = lost || len(rs) < len(ls)
+	}
+	return lost
 }
 
 func (cx *c06Ctx) spec(prog []string, tag, detail string, impl, want []string) {
@@ -1290,8 +1445,8 @@ func TestVerifC06(t *testing.T) {
 		"for every split k: Snapshot+Persist after k ops, crash, Restore on a fresh server whose data dir has the crashed server's stream directories (marker files), "+
 		"ops k+1..n replayed with recovered=true, finishedRecovery; k=0 also without snapshot (replay from scratch); observable metadata (streams, partitions, replicas, "+
 		"ISR, leader, epochs, paused/readonly as kept at run time and as FetchMetadata reports them, groups, coordinators, epochs, members and their streams) compared with the live server; "+
-		"disk listing for data loss / resurrection; late-persisted snapshots (Snapshot() after k ops, Persist() after j > k ops, replay from k) on the real server only; exhaustive: every valid history over an 18-op alphabet up to the depth given in the notes; random: seeded histories of up to 25 ops over "+
-		"3 streams x 2 partitions x 2 groups x 3 members with duplicate/unsorted id lists, crash points before the end of the log; non-trivial = at least two different kinds of op (live) and at least one replayed op (splits); distinct by history text and split")
+		"disk listing for data loss / resurrection; late-persisted snapshots (Snapshot() after k ops, Persist() after j > k ops, replay from k) on the real server only; exhaustive: every valid history over a 19-op alphabet up to the depth given in the notes; random: seeded histories of up to 25 ops over "+
+		"3 streams x 2 partitions x 2 groups x 3 members with duplicate/unsorted id lists, crash points before the end of the log; stand-by scenarios (real server only): groups with more subscribers than partitions and members subscribed to several streams of which some give them nothing, snapshot with the members listed in ascending / descending id order (Snapshot() lists them in Go map order), restore + replay, then the active member leaves on the live and on the restored server: members, subscriptions (read from the group, not through GetMembers), assignments, load counters and epochs compared, C12's statement-level oracles on both; non-trivial = at least two different kinds of op (live) and at least one replayed op (splits); distinct by history text and split")
 	defer res.Write(t)
 	cx := &c06Ctx{t: t, model: model, res: res, tags: map[string]int{}}
 	defer cx.a.close()
@@ -1310,6 +1465,36 @@ func TestVerifC06(t *testing.T) {
 		prog := []string{"c06 begin", "c06 apply 1 L unknown"}
 		cx.both(&cx.a, prog)
 		res.Count("unknown-op", false)
+	}
+
+	// --- groups with stand-by members at the moment of the snapshot, take-over after the restart
+	{
+		t0, n0 := time.Now(), res.Evaluations
+		// the smallest one: two consumers on a one-partition stream, snapshot, restart, the active one leaves
+		base := []string{"create a sa 11 0/b.c.d/b.c.d/b", "create s ss 22 0/b.c.d/b.c.d/b;1/b.c.d/b.c/c", "group g x 0 m1=a", "join g m2 a.s", "join g m3 a"}
+		for k := 3; k <= len(base); k++ {
+			for _, order := range []string{"asc", "desc"} {
+				cx.standby(base, k, order, nil, "standby-fixed")
+			}
+		}
+		cx.judge(base, c06AllSplits(len(base)), true, "standby-fixed-history")
+		r := vNewRand(0xC0612)
+		n := 120
+		if vThorough() {
+			n = 3000
+		}
+		for i := 0; i < n; i++ {
+			ops := c06StandbyHistory(r)
+			ks := []int{len(ops), len(ops) - 1 - r.Intn(2), 3 + r.Intn(len(ops)-3)}
+			for j, k := range ks {
+				order := []string{"asc", "desc"}[(i+j)%2]
+				cx.standby(ops, k, order, nil, "standby")
+			}
+			if i%4 == 0 { // the same history through the model and the ordinary splits
+				cx.judge(ops, [][2]int{{len(ops), len(ops)}, {len(ops) - 1, len(ops)}}, true, "standby-history")
+			}
+		}
+		res.Note(fmt.Sprintf("stand-by scenarios: %d evaluations in %v", res.Evaluations-n0, time.Since(t0).Round(100*time.Millisecond)))
 	}
 
 	depth, nRandom, maxLen := 3, 300, 25
@@ -1367,6 +1552,351 @@ func TestVerifC06(t *testing.T) {
 	res.Note("spec failures by tag: " + strings.Join(tl, ", "))
 }
 
+// ---------------------------------------------------------------- stand-by members across snapshot / restore
+
+// A consumer group with MORE subscribers of a stream than the stream has partitions has stand-by
+// members: subscribed (consumer.streams) but holding nothing of that stream (no key in
+// consumer.assignments). The snapshot must carry the subscription all the same: after a restore
+// the group must be what it is on a server that applied the log — members, their subscriptions,
+// what each member is assigned, the load counters — and when the active member leaves, the
+// stand-by must take the partition over on both servers alike.
+//
+// c06StandbyProgs builds the two programs of one scenario (implementation only: `gstate` and
+// `snapshot asc|desc` are not model commands):
+//
+//	live:     begin; ops 1..n live; gstate; take-over ops live, gstate after each
+//	restored: begin; ops 1..k live; snapshot <order>; restart (Restore); ops k+1..n replayed;
+//	          finish n; gstate; the same take-over ops live, gstate after each
+func c06StandbyProgs(ops []string, k int, order string, takeover []string) (live, rest []string) {
+	n := len(ops)
+	live = []string{"c06 begin"}
+	rest = []string{"c06 begin"}
+	for i, op := range ops {
+		live = append(live, fmt.Sprintf("c06 apply %d L %s", i+1, op))
+		if i < k {
+			rest = append(rest, fmt.Sprintf("c06 apply %d L %s", i+1, op))
+		}
+	}
+	rest = append(rest, "c06 snapshot "+order, "c06 restart")
+	for i := k; i < n; i++ {
+		rest = append(rest, fmt.Sprintf("c06 apply %d R %s", i+1, ops[i]))
+	}
+	rest = append(rest, fmt.Sprintf("c06 finish %d", n))
+	live = append(live, "c06 gstate")
+	rest = append(rest, "c06 gstate")
+	for i, op := range takeover {
+		l := fmt.Sprintf("c06 apply %d L %s", n+1+i, op)
+		live = append(live, l, "c06 gstate")
+		rest = append(rest, l, "c06 gstate")
+	}
+	return
+}
+
+// c06Obs: what is recorded at every `gstate` line.
+type c06Obs struct {
+	line   int
+	groups []c06G
+	parts  map[string]int32
+}
+
+func (v *c06Impl) runG(prog []string) (out []string, obs []c06Obs) {
+	out = make([]string, len(prog))
+	for i, l := range prog {
+		out[i] = v.exec(l)
+		if l == "c06 gstate" && strings.HasPrefix(out[i], "ok") {
+			obs = append(obs, c06Obs{line: i, groups: v.groups(), parts: v.partsNow()})
+		}
+	}
+	return
+}
+
+func c06ShowMember(m c12Member) string {
+	return fmt.Sprintf("%s{%s}[%s]#%d", m.id, strings.Join(m.streams, ","), c12ShowAsg(m.asg), m.count)
+}
+
+// c06TagAssignments: same members, same subscriptions, same epoch — other partition assignments on
+// the restored server than on the live one. This happens on the unchanged code: a snapshot carries
+// members and subscriptions only, Restore -> newConsumerGroup re-adds the members one by one in the
+// order of the snapshot (Go map order of GetMembers), while the live assignment depends on the order
+// of the joins and leaves (corpus/C06/group-assignments-after-restore*.ops; candidate repair
+// fixes/C06-group-rebalance-history-independent.diff makes the assignment a function of members and
+// subscriptions). DESIGN.md section 6 lists it among the observations NOT claimed as violations of
+// C06 / C12 as stated, so by default it is only measured (distribution bucket + one note);
+// C06_STRICT_ASSIGNMENTS=1 turns it into a spec failure with this tag.
+const c06TagAssignments = "group-assignments-differ-after-snapshot-restore"
+
+func c06StrictAssignments() bool { return os.Getenv("C06_STRICT_ASSIGNMENTS") != "" }
+
+// c06CompareGroups: the consumer groups of a server that applied the log (live) and of a server
+// rebuilt from snapshot + replay. Stable tags, the most specific difference first.
+func c06CompareGroups(live, rest []c06G) (tag, detail string) {
+	lm, rm := map[string]c06G{}, map[string]c06G{}
+	var lids, rids []string
+	for _, g := range live {
+		lm[g.id] = g
+		lids = append(lids, g.id)
+	}
+	for _, g := range rest {
+		rm[g.id] = g
+		rids = append(rids, g.id)
+	}
+	if strings.Join(lids, ",") != strings.Join(rids, ",") {
+		return "snapshot-restore-groups-differ", fmt.Sprintf("groups after the restart: [%s], on the live server: [%s]", strings.Join(rids, ","), strings.Join(lids, ","))
+	}
+	epochTag, epochDetail := "", ""
+	asgTag, asgDetail := "", ""
+	for _, id := range lids {
+		l, r := lm[id], rm[id]
+		if l.co != r.co {
+			return "snapshot-restore-group-coordinator-differs", fmt.Sprintf("group %s: coordinator %s after the restart, %s on the live server", id, r.co, l.co)
+		}
+		mem := func(st c12State) (ids []string, by map[string]c12Member) {
+			by = map[string]c12Member{}
+			for _, m := range st.members {
+				ids = append(ids, m.id)
+				by[m.id] = m
+			}
+			return
+		}
+		li, lby := mem(l.st)
+		ri, rby := mem(r.st)
+		if strings.Join(li, ",") != strings.Join(ri, ",") {
+			return "snapshot-restore-group-members-differ", fmt.Sprintf("group %s: members [%s] after the restart, [%s] on the live server", id, strings.Join(ri, ","), strings.Join(li, ","))
+		}
+		for _, mid := range li {
+			a, b := lby[mid], rby[mid]
+			if strings.Join(a.streams, ",") != strings.Join(b.streams, ",") {
+				lost := true
+				for _, s := range b.streams {
+					f := false
+					for _, t := range a.streams {
+						f = f || s == t
+					}
+					lost = lost && f
+				}
+				d := fmt.Sprintf("group %s: member %s is subscribed to {%s} on the live server and to {%s} after the restart (live: %s — restored: %s)",
+					id, mid, strings.Join(a.streams, ","), strings.Join(b.streams, ","), c06ShowMember(a), c06ShowMember(b))
+				if lost {
+					return "snapshot-loses-group-subscription", d
+				}
+				return "snapshot-restore-group-subscription-differs", d
+			}
+		}
+		for _, mid := range li {
+			a, b := lby[mid], rby[mid]
+			if asgTag == "" && c12ShowAsg(a.asg) != c12ShowAsg(b.asg) {
+				asgTag = c06TagAssignments
+				asgDetail = fmt.Sprintf("group %s (same members, same subscriptions, epoch %d live / %d restored): member %s is assigned [%s] on the live server and [%s] after the restart (live: %s — restored: %s)",
+					id, l.st.epoch, r.st.epoch, mid, c12ShowAsg(a.asg), c12ShowAsg(b.asg), l.st.String(), r.st.String())
+			}
+		}
+		if epochTag == "" && l.st.epoch != r.st.epoch {
+			epochTag, epochDetail = "group-epoch-differs-after-replay", fmt.Sprintf("group %s: epoch %d after the restart, %d on the live server", id, r.st.epoch, l.st.epoch)
+		}
+	}
+	if asgTag != "" {
+		return asgTag, asgDetail
+	}
+	return epochTag, epochDetail
+}
+
+// standby judges one scenario (see c06StandbyProgs). With takeover == nil the take-over ops are
+// computed from the live state: in every group, a member that holds a partition of a stream which
+// has a subscriber holding none of it (a stand-by) leaves; then one more member leaves.
+// Besides the live/restored comparison both servers' groups are judged by the statement-level
+// oracles of C12 (every partition of a subscribed stream held exactly once by a subscriber, load
+// counter exact) after every take-over op.
+func (cx *c06Ctx) standby(ops []string, k int, order string, takeover []string, bucket string) {
+	if takeover == nil {
+		live, _ := c06StandbyProgs(ops, len(ops), order, nil)
+		_, obs := cx.b.runG(live)
+		if len(obs) == 1 {
+			for _, g := range obs[0].groups {
+				left := 0
+				for _, m := range g.st.members { // the active member of a stream with a stand-by
+					active := false
+					for s, ps := range m.asg {
+						for _, o := range g.st.members {
+							if o.id != m.id && len(ps) > 0 && len(o.asg[s]) == 0 && c12Subscribed(c12State{members: []c12Member{o}}, s) {
+								active = true
+							}
+						}
+					}
+					if active && left == 0 && len(g.st.members) > 1 {
+						takeover = append(takeover, fmt.Sprintf("leave %s %s", g.id, m.id))
+						left++
+					}
+				}
+				if left > 0 && len(g.st.members) > 2 { // and one more, whoever comes first
+					for _, m := range g.st.members {
+						if !strings.HasSuffix(takeover[len(takeover)-1], " "+m.id) {
+							takeover = append(takeover, fmt.Sprintf("leave %s %s", g.id, m.id))
+							break
+						}
+					}
+				}
+			}
+			if len(takeover) > 0 {
+				cx.res.Dist(bucket + ":take-over-by-stand-by")
+			} else {
+				cx.res.Dist(bucket + ":no-stand-by")
+			}
+		}
+		if takeover == nil {
+			takeover = []string{}
+		}
+	}
+	live, rest := c06StandbyProgs(ops, k, order, takeover)
+	outL, obsL := cx.b.runG(live)
+	outR, obsR := cx.a.runG(rest)
+	cx.res.Count(fmt.Sprintf("standby:%d:%s:%s|%s", k, order, strings.Join(ops, "|"), strings.Join(takeover, "|")), true)
+	cx.res.Dist(bucket)
+	if k == len(ops) {
+		cx.res.Dist(bucket + ":snapshot-only")
+	} else {
+		cx.res.Dist(bucket + ":snapshot+replay")
+	}
+	for i, o := range outL {
+		if strings.HasPrefix(o, "err") || o == "panic" || o == "dead" || o == "bad-op" {
+			cx.spec(live[:i+1], "valid-op-refused", "stand-by scenario: an op of the live program fails: "+o, []string{o}, nil)
+			return
+		}
+	}
+	for i, o := range outR {
+		if strings.HasPrefix(o, "err") || o == "panic" || o == "dead" || o == "bad-op" {
+			cx.spec(rest[:i+1], "replay-fails", "stand-by scenario: snapshot / restore / replay fails in the real server: "+o, []string{o}, nil)
+			return
+		}
+	}
+	if len(obsL) != len(obsR) || len(obsL) != 1+len(takeover) {
+		cx.res.Fail(vFailure{Kind: "disagreement", Case: rest, Detail: "stand-by scenario: gstate lines missing (harness bug)"})
+		return
+	}
+	seen := map[string]bool{}
+	for i := range obsL {
+		// live vs restored
+		tag, detail := c06CompareGroups(obsL[i].groups, obsR[i].groups)
+		if tag == c06TagAssignments && !c06StrictAssignments() {
+			// DESIGN.md section 6 records this as an observation that is NOT claimed as a violation (C06
+			// lists "consumer groups and their members", C12 speaks of servers that APPLIED the same op
+			// sequence): measured, shown in the evidence, not a failure — see c06TagAssignments.
+			if !seen[tag] {
+				seen[tag] = true
+				cx.res.Dist(bucket + ":observation:assignments-differ-after-restore")
+				if cx.tags["observation:"+tag] == 0 {
+					cx.res.Note(fmt.Sprintf("observation (not judged; C06_STRICT_ASSIGNMENTS=1 makes it a spec failure tagged %s): %s — program: %s",
+						tag, detail, strings.Join(rest[:obsR[i].line+1], " | ")))
+				}
+				cx.tags["observation:"+tag]++
+			}
+			tag = ""
+		}
+		if tag != "" && !seen[tag] {
+			seen[tag] = true
+			when := "right after the restart"
+			if i > 0 {
+				when = fmt.Sprintf("after take-over op %d (%s)", i, takeover[i-1])
+			}
+			cx.spec(rest[:obsR[i].line+1], tag, fmt.Sprintf("snapshot (members listed %s) after %d of %d ops, restart, %d ops replayed; %s: %s",
+				order, k, len(ops), len(ops)-k, when, detail), []string{outR[obsR[i].line]}, []string{outL[obsL[i].line]})
+		}
+		// each server on its own
+		for side, o := range []c06Obs{obsL[i], obsR[i]} {
+			prog, out := live, outL
+			if side == 1 {
+				prog, out = rest, outR
+			}
+			for _, g := range o.groups {
+				tag, d := "", ""
+				if d = c12CountOracle(g.st); d != "" {
+					tag = "group-load-count-drift"
+				} else if d, tag = c12Oracle(g.st, o.parts, false); d != "" {
+					d = "group " + g.id + ": " + d
+				}
+				if tag != "" && !seen[tag] {
+					seen[tag] = true
+					cx.spec(prog[:o.line+1], tag, d, []string{out[o.line]}, nil)
+				}
+			}
+		}
+	}
+}
+
+// c06StandbyHistory generates a history that ends with groups having stand-by members: 2-3 streams
+// of 1-3 partitions; group g (sometimes also h) whose members subscribe to overlapping subsets that
+// all contain one contested stream with FEWER partitions than subscribers; members subscribed to
+// several streams of which some give them nothing; now and then a leave + re-join, a second group,
+// and partition-level ops in between so that the replayed suffix is not empty.
+func c06StandbyHistory(r *vRand) []string {
+	names := []string{"a", "s", "t"}[:2+r.Intn(2)]
+	nparts := map[string]int{}
+	var ops []string
+	for i, n := range names {
+		np := 1 + r.Intn(3)
+		if i == 0 {
+			np = 1 + r.Intn(2) // the contested stream: 1-2 partitions
+		}
+		nparts[n] = np
+		var ps []string
+		for p := 0; p < np; p++ {
+			ps = append(ps, fmt.Sprintf("%d/b.c.d/b.c.d/%s", p, []string{"b", "c", "d"}[r.Intn(3)]))
+		}
+		ops = append(ops, fmt.Sprintf("create %s s%s %d %s", n, n, 100+i, strings.Join(ps, ";")))
+	}
+	contested := names[0]
+	subset := func() string {
+		l := []string{contested}
+		for _, n := range names[1:] {
+			if r.Intn(2) == 0 {
+				l = append(l, n)
+			}
+		}
+		if len(l) > 1 && r.Bool() {
+			l[0], l[len(l)-1] = l[len(l)-1], l[0]
+		}
+		return strings.Join(l, ".")
+	}
+	members := []string{"m1", "m2", "m3", "m4"}
+	for gi, gid := range []string{"g", "h"} {
+		if gi == 1 && r.Intn(3) > 0 {
+			break
+		}
+		nm := nparts[contested] + 1 + r.Intn(2) // more subscribers than partitions
+		if nm > len(members) {
+			nm = len(members)
+		}
+		// the group is created with one or two members, the others join
+		first := 1 + r.Intn(2)
+		var ms []string
+		for i := 0; i < first; i++ {
+			ms = append(ms, members[i]+"="+subset())
+		}
+		ops = append(ops, fmt.Sprintf("group %s %s 0 %s", gid, []string{"x", "y"}[r.Intn(2)], strings.Join(ms, ",")))
+		for i := first; i < nm; i++ {
+			ops = append(ops, fmt.Sprintf("join %s %s %s", gid, members[i], subset()))
+			if r.Intn(4) == 0 {
+				ops = append(ops, fmt.Sprintf("leader %s 0 %s", names[r.Intn(len(names))], []string{"b", "c", "d"}[r.Intn(3)]))
+			}
+		}
+		if r.Intn(3) == 0 { // somebody leaves and comes back: the live assignment depends on the history
+			who := members[r.Intn(nm)]
+			ops = append(ops, fmt.Sprintf("leave %s %s", gid, who), fmt.Sprintf("join %s %s %s", gid, who, subset()))
+		}
+	}
+	for k := r.Intn(3); k > 0; k-- { // a tail that does not touch the groups
+		n := names[r.Intn(len(names))]
+		switch r.Intn(3) {
+		case 0:
+			ops = append(ops, fmt.Sprintf("readonly %s - %d", n, r.Intn(2)))
+		case 1:
+			ops = append(ops, fmt.Sprintf("leader %s 0 %s", n, []string{"b", "c", "d"}[r.Intn(3)]))
+		default:
+			ops = append(ops, fmt.Sprintf("activity %d", r.Intn(50)))
+		}
+	}
+	return ops
+}
+
 // judge2: the split k = 0 with a snapshot of the EMPTY state (Restore of an empty snapshot).
 func (cx *c06Ctx) judge2(ops []string) {
 	prog := c06Split(ops, 0, len(ops), false)
@@ -1397,6 +1927,46 @@ func (cx *c06Ctx) replay(c []string) {
 			}
 		}
 		cx.judge(ops, c06AllSplits(len(ops)), true, "corpus")
+		return
+	}
+	// a stand-by scenario (c06StandbyProgs): recover history, snapshot point, member order, take-over
+	for _, l := range c {
+		if l != "c06 gstate" {
+			continue
+		}
+		var ops, takeover []string
+		k, order, phase := 0, "asc", 0 // phase 0: before the snapshot, 1: replay, 2: after finish
+		for _, l := range c {
+			t := strings.Fields(l)
+			if len(t) < 2 {
+				continue
+			}
+			switch {
+			case t[1] == "snapshot":
+				k = len(ops)
+				if len(t) == 3 {
+					order = t[2]
+				}
+			case t[1] == "restart":
+				phase = 1
+			case t[1] == "finish":
+				phase = 2
+			case t[1] == "apply" && len(t) >= 5:
+				if phase == 2 {
+					takeover = append(takeover, strings.Join(t[4:], " "))
+				} else {
+					ops = append(ops, strings.Join(t[4:], " "))
+				}
+			}
+		}
+		if phase == 0 { // the live program of a scenario: every op is live, nothing to restore
+			cx.standby(ops, len(ops), order, nil, "replay")
+			return
+		}
+		if takeover == nil {
+			takeover = []string{}
+		}
+		cx.standby(ops, k, order, takeover, "replay")
 		return
 	}
 	// a split program produced by this harness: recover the history and the split from it
